@@ -871,15 +871,104 @@ def run_engine(prog, roots, stop, rule_name, clause, table, floor):
     return res, eng, sites, counts
 
 
-def _finish(res, sites, table, what):
+def _guarded_by_not(fn, bb, callee):
+    """block bb is only reachable through the false edge of a switch on the result of `callee`"""
+    for bi, t in fn.calls():
+        if callee_name(t) != callee or t["t"] is None or not fn.dominates(bi, bb):
+            continue
+        nb = t["t"]
+        # follow Not / copies to the switch
+        for sb in sorted(fn.reach_from(nb)):
+            tt = fn.term(sb)
+            if tt["k"] == "switch" and tt.get("dty") == "bool" and fn.dominates(sb, bb):
+                from kq.analysis import backward_slice
+                _, callees, _ = backward_slice(fn, tt["d"])
+                if callee not in callees:
+                    continue
+                # polarity: count Not on the way
+                nots = 0
+                d = tt["d"]
+                cur = d
+                while is_place(cur):
+                    df = fn.single_def(cur["l"])
+                    if df and df[2] == "assign" and df[3]["k"] == "un" and df[3]["op"] == "Not":
+                        nots += 1
+                        cur = df[3]["a"]
+                    elif df and df[2] == "assign" and df[3]["k"] == "use":
+                        cur = df[3]["a"]
+                    else:
+                        break
+                want = 1 if nots % 2 == 1 else 0   # value of the switch operand when callee returned false
+                tgt = [tb for v, tb in tt["ts"] if v == want] or ([tt["o"]] if all(v != want for v, _ in tt["ts"]) else [])
+                other = [x for x in fn.succs(sb) if x not in tgt]
+                if tgt and bb in fn.reach_from(tgt[0], avoid=[sb]) and not any(bb in fn.reach_from(o, avoid=[sb]) for o in other):
+                    return True
+    return False
+
+
+def check_shape(eng, s, tag):
+    fn = s.fn
+    if tag == "index-is-min-with-len":
+        from kq.analysis import backward_slice
+        idx, ln = s.detail["index"], s.detail["len"]
+        g = eng.gf(fn)
+        st = g.before_term(s.bb)
+        lens = g.len_aliases(st, ln) if st is not None else set()
+        # the index is (a saturating decrement of) min(x, len(container))
+        seen, work = set(), [idx]
+        while work:
+            o = work.pop()
+            if not is_place(o) or o["l"] in seen:
+                continue
+            seen.add(o["l"])
+            for (bb, i_, kind, payload) in fn.defs().get(o["l"], []):
+                if kind == "call":
+                    cn = callee_name(payload) or ""
+                    if cn in ("core::cmp::min", "core::cmp::Ord::min"):
+                        stc = g.before_term(bb)
+                        for a in payload["args"]:
+                            if stc is not None and (g.len_aliases(stc, a) & lens):
+                                return True, "index = min(_, len) - 1"
+                    if cn in ("core::num::saturating_sub", "core::convert::From::from", "core::convert::Into::into", "core::convert::num::from"):
+                        work.extend(payload["args"][:1])
+                elif kind == "assign":
+                    from kq.core import rvalue_operands
+                    if payload["k"] in ("use", "cast"):
+                        work.extend(rvalue_operands(payload))
+        return False, "the index is no longer clamped by min(.., len) of the indexed list"
+    if tag.startswith("guarded-by-not:"):
+        callee = tag.split(":", 1)[1]
+        ok = _guarded_by_not(fn, s.bb, callee)
+        return ok, ("guarded by !%s()" % callee.split("::")[-1]) if ok else ("not guarded by !%s()" % callee.split("::")[-1])
+    if tag.startswith("callers-guarded-by-not:"):
+        callee = tag.split(":", 1)[1]
+        sites = eng.prog.call_sites(fn.norm)
+        if not sites:
+            return False, "no callers"
+        for (cf, cb, ct) in sites:
+            if not _guarded_by_not(cf, cb, callee):
+                return False, "caller %s:%s is not guarded by !%s()" % (cf.file, ct.get("ln"), callee.split("::")[-1])
+        return True, "every caller is guarded by !%s()" % callee.split("::")[-1]
+    return False, "unknown shape requirement " + tag
+
+
+def _finish(res, sites, table, what, eng=None):
     import fnmatch
+    from rules.panic_tables import REQUIRE
     used = set()
     for s in sites:
         if s.status == "no":
             for (pat, reason) in table:
                 if fnmatch.fnmatchcase(s.key, pat):
-                    s.status, s.how = "table", reason
                     used.add(pat)
+                    tag = REQUIRE.get(pat)
+                    if tag and eng is not None:
+                        ok, why = check_shape(eng, s, tag)
+                        if not ok:
+                            s.how = "table entry requires a shape that no longer holds: " + why
+                            break
+                        reason = reason + " [checked: " + why + "]"
+                    s.status, s.how = "table", reason
                     break
         ok = s.status in ("ok", "table")
         d = res.inst(s.key if s.status != "ok" else "%s|%s@%s" % (s.fn.norm, s.kind, s.line), where=s.where, status=s.status, how=(s.how or "")[:160])
@@ -900,11 +989,11 @@ def run_rt(prog):
     from rules.panic_tables import RT
     res, eng, sites, counts = run_engine(prog, RT_ROOTS, RT_STOP, "R-PANIC/rt",
                                          "no reachable partial operation on the event/tick path can fail", RT, 120)
-    return _finish(res, sites, RT, "run-time")
+    return _finish(res, sites, RT, "run-time", eng)
 
 
 def run_parse(prog):
     from rules.panic_tables import PARSE
     res, eng, sites, counts = run_engine(prog, PARSE_ROOTS, [], "R-PANIC/parse",
                                          "no reachable partial operation in configuration parsing / diagnostics can fail", PARSE, 400)
-    return _finish(res, sites, PARSE, "parse")
+    return _finish(res, sites, PARSE, "parse", eng)
